@@ -108,6 +108,11 @@ inductive Val where
   | extObj (mask : Nat) (typeId : Option ExpNodeId) (vname : String) (value : Val)
   deriving Repr, Inhabited
 
+/-- the nil pointer / nil interface -/
+def Val.isNil : Val → Bool
+  | .nil => true
+  | _ => false
+
 /-! ## outcomes -/
 
 inductive Fail where
@@ -489,8 +494,14 @@ def decVarElems (env : Env) (elem : Dec Val) (n : Int) : Dec (List Val) :=
     request env n.toNat
     decElems elem n.toNat
 
-/-- `make([]int32, dl)` and the dimension entries -/
+/-- `if int(m.arrayDimensionsLength) > buf.Len()/4 { return … }`: more dimensions than four-byte groups left in
+    the buffer are an error (since the repair of C02.variant-dims-prealloc) -/
+def checkDimCount (dl : Nat) : Dec Unit := fun s =>
+  if dl > s.buf.length / 4 then .fail .err else .ok () s
+
+/-- the dimension list: the count check, `make([]int32, dl)`, and the dimension entries -/
 def decDimList (env : Env) (dl : Nat) : Dec (Option (List Nat)) := do
+  checkDimCount dl
   request env dl
   let ds ← decDims dl
   pure (some ds)
@@ -545,7 +556,7 @@ def encVarLeaf (rec : Ty → Val → Enc) (base : Nat) (v : Val) : Enc :=
 /-- `m.encode(buf, reflect.ValueOf(m.value))`.  `value == nil` (nil interface, tag 0) makes
     `val.Interface()` panic; a typed nil pointer inside the interface is an ordinary leaf. -/
 def encVarValue (rec : Ty → Val → Enc) (tid : Nat) (vt : VTag) (value : Val) : Enc :=
-  if value matches .nil ∧ vt.base = 0 then .error .panicNilValue
+  if value.isNil ∧ vt.base = 0 then .error .panicNilValue
   else if tid = 15 then encVarLeaf rec vt.base value
   else encElems (encVarLeaf rec vt.base) (leaves value)
 
@@ -640,11 +651,9 @@ def encTypeId : Option ExpNodeId → Enc
   | none => .error .err
   | some e => encExpNodeId e
 
-/-- `body.WriteStruct(e.Value)`.  `Value == nil` (nil interface, no type name) panics in `Encode(nil)`;
-    a typed nil pointer inside the interface encodes to nothing. -/
+/-- `body.WriteStruct(e.Value)` for `Value != nil`; a typed nil pointer inside the interface encodes to nothing. -/
 def encExtBody (env : Env) (rec : Ty → Val → Enc) (vname : String) (value : Val) : Enc :=
-  if value matches .nil ∧ vname.isEmpty then .error .panicNilValue
-  else if vname == xmlName then rec xmlElementPtr value
+  if vname == xmlName then rec xmlElementPtr value
   else match lookupName env vname with
     | some i => rec (.ptr (entry env i).ty) value
     | none => .error .illTyped
@@ -666,6 +675,11 @@ def encExtObj (env : Env) (rec : Ty → Val → Enc) (mask : Nat) (typeId : Opti
   else if mask = 0 then do
     let tb ← t
     pure (tb ++ leBytes 1 mask)
+  else if value.isNil ∧ vname.isEmpty then do
+    -- `e.Value == nil` (unknown type id, or sent without a body): a null body
+    -- (since the repair of C03.extobj-nil-value; `ua.Encode(nil)` used to panic here)
+    let tb ← t
+    pure (tb ++ leBytes 1 mask ++ leBytes 4 null32)
   else do
     let body ← encExtBody env rec vname value
     let tb ← t
